@@ -820,21 +820,54 @@ class Unit:
                 edits.append(Edit(toks[body].end, toks[body].end, ' ' + c[1] + ' ', ('spec', tplpath, c[2], c[3]), prio=4))
                 rec.n_hints += 1
             if c[0] == 'exit':
-                # ghost text before the tail expression of the body (after the last top-level `;` or `}` of the body)
+                # ghost text at the end of the body, in the FINAL state: after the last statement; if the body ends in a tail expression
+                # that is more than a variable, the expression is bound first (`let vf_ret = <tail>; <ghost>; vf_ret`) — a value-preserving
+                # rewrite of the function's last line (R12)
                 k = body + 1
+                stmt_start = None
                 last_end = toks[body].end
-                while k < br[body]:
-                    t = toks[k]
-                    if t.text in ('(', '[', '{') and k in br:
-                        k = br[k]
-                        if toks[k].text == '}':
-                            last_end = toks[k].end
-                        k += 1
+                sig = [i for i in range(body + 1, br[body]) if toks[i].kind not in ('ws', 'comment')]
+                pos = 0
+                tail_start = None
+                cur_start = None
+                while pos < len(sig):
+                    i = sig[pos]
+                    t = toks[i]
+                    if cur_start is None:
+                        cur_start = i
+                    if t.text in ('(', '[', '{') and i in br:
+                        close = br[i]
+                        # skip to the token after the group
+                        while pos < len(sig) and sig[pos] <= close:
+                            pos += 1
+                        if t.text == '{':
+                            nxt = toks[sig[pos]].text if pos < len(sig) else None
+                            if nxt is None:
+                                break
+                            if nxt in ('else', '.', '?', 'as', '+', '-', '*', '/', '&&', '||', '==', '!=', '<', '>', '<=', '>=', ';', ','):
+                                continue
+                            # a block-like statement ended
+                            last_end = toks[close].end
+                            cur_start = None
                         continue
                     if t.text == ';':
                         last_end = t.end
-                    k += 1
-                edits.append(Edit(last_end, last_end, ' ' + c[1] + ' ', ('spec', tplpath, c[2], c[3]), prio=4))
+                        cur_start = None
+                    pos += 1
+                tail_start = cur_start
+                if tail_start is None:
+                    edits.append(Edit(last_end, last_end, ' ' + c[1] + ' ', ('spec', tplpath, c[2], c[3]), prio=4))
+                else:
+                    tail_toks = [i for i in sig if i >= tail_start]
+                    if len(tail_toks) == 1 and toks[tail_toks[0]].kind == 'ident':
+                        off = toks[tail_start].start
+                        edits.append(Edit(off, off, ' ' + c[1] + ' ', ('spec', tplpath, c[2], c[3]), prio=4))
+                    else:
+                        off = toks[tail_start].start
+                        edits.append(Edit(off, off, 'let vf_ret = ', None, prio=-6))
+                        endoff = toks[tail_toks[-1]].end
+                        edits.append(Edit(endoff, endoff, '; ' + c[1] + ' vf_ret', ('spec', tplpath, c[2], c[3]), prio=6))
+                        cnt('R12-bind-tail')
                 rec.n_hints += 1
             if c[0] in ('loopbefore', 'loophead', 'looptail', 'loopend'):
                 mm = re.match(r'(\d+)\s*:\s*(.*)$', c[1], re.S)
